@@ -1022,15 +1022,7 @@ func (s *SecureChannel) sendPendingRequest(
 	timer := time.NewTimer(timeout + timeoutLeniency)
 	defer timer.Stop()
 
-	select {
-	case <-ctx.Done():
-		verifPoint("sc.ctx.done")
-		s.popHandler(reqID)
-		return ctx.Err()
-	case <-s.disconnected:
-		s.popHandler(reqID)
-		return io.EOF
-	case msg := <-ch:
+	handle := func(msg *MessageBody) error {
 		if msg.Err != nil {
 			if msg.Response() != nil {
 				_ = h(msg.Response()) // ignore result because msg.Err takes precedence
@@ -1038,9 +1030,30 @@ func (s *SecureChannel) sendPendingRequest(
 			return msg.Err
 		}
 		return h(msg.Response())
+	}
+
+	// When the caller gives up and the handler is gone already, the
+	// dispatcher has taken it and hands the response over right now. The
+	// response must be processed then: for an OpenSecureChannelResponse the
+	// dispatcher waits until that has happened, it would wait forever for a
+	// caller which has left.
+	select {
+	case <-ctx.Done():
+		verifPoint("sc.ctx.done")
+		if _, ok := s.popHandler(reqID); !ok {
+			return handle(<-ch)
+		}
+		return ctx.Err()
+	case <-s.disconnected:
+		s.popHandler(reqID)
+		return io.EOF
+	case msg := <-ch:
+		return handle(msg)
 	case <-timer.C:
 		verifPoint("sc.timeout.fired")
-		s.popHandler(reqID)
+		if _, ok := s.popHandler(reqID); !ok {
+			return handle(<-ch)
+		}
 		return ua.StatusBadTimeout
 	}
 }
